@@ -240,7 +240,7 @@ def c10(tier):
              'and the recovery and later edit/rebuild steps must behave as that state predicts')
     # (b), (c) the known windows: the specification itself shows the violation; it is confirmed on the real code
     for fam_, label in ((programs.crash_family(window=True), 'rename..commit window'),
-                        ([p for p in programs.crash_family(stamp_window=True) if 'stamped' in p['name']],
+                        ([p for p in programs.crash_family(stamp_window=True) if 'stamp' in p['name']],
                          'redo-stamp..record window')):
         v, cov2, te2, wall2 = syscheck.run_family(
             'C10', tier, fam_, inv, [], cats, (4, 3), sample_n=10, min_cmds=1, cmd_timeout=30, verdict=verdict,
@@ -262,6 +262,12 @@ def c10(tier):
     cov['pinned_counterexamples'] = [{'program': 'crash_outdir', 'switch': 'StaleTmpDirBug', 'expected': 'RecoversOk', 'found': r0.violated}]
     if r0.violated != 'RecoversOk':
         te.append('anti-vacuity: crash_outdir with StaleTmpDirBug should violate RecoversOk, TLC says %s' % (r0.violated or r0.error))
+    ph = dict([p for p in programs.crash_family(stamp_window=True) if p['name'] == 'crash_stamphand_s'][0], null_stamp_panics=True)
+    r1, _ = histories.gen_histories(ph, dd, max_hist=4, max_cmds=3, invariants=['NoPanic'], workers=4)
+    cov['pinned_counterexamples'].append({'program': 'crash_stamphand_s', 'switch': 'NullStampPanics', 'expected': 'NoPanic',
+                                          'found': r1.violated})
+    if r1.violated != 'NoPanic':
+        te.append('anti-vacuity: crash_stamphand_s with NullStampPanics should violate NoPanic, TLC says %s' % (r1.violated or r1.error))
     # (d) kills at system-call granularity (strace injection), oracle = the histories TLC exports without the kill
     import killsweep
     kcov, kte = killsweep.run_sweep('C10', tier, verdict, common.build_redo())
